@@ -415,7 +415,14 @@ impl State {
                 let idx = match numbers::get_highest_index(&self.config.file_spec) {
                     None => 0,
                     Some(idx) => {
-                        if self.config.append {
+                        // (the newest file can only be continued if it is a plain file)
+                        if self.config.append
+                            && self
+                                .config
+                                .file_spec
+                                .as_pathbuf(Some(&numbers::number_infix(idx)))
+                                .exists()
+                        {
                             idx
                         } else {
                             numbers::next_index(idx)?
